@@ -221,8 +221,21 @@ class RepEngine:
                 x, y = bool_of(e["a"], st), bool_of(e["b"], st)
                 if x is not None and y is not None and facts.ty(e["a"]).lstrip("&") == "bool":
                     return (x == y) if e["op"] == "==" else (x != y)
-            if k == "Block" and not e.get("stmts") and e.get("expr"):
+            if k == "Block" and e.get("expr") and (not e.get("stmts") or e.get("projected")):
                 return bool_of(e["expr"], st)
+            if k == "Match":
+                vals = {bool_of(a["body"], st) for a in e["arms"] if facts.ty(a["body"]) != "!"}
+                if len(vals) == 1:
+                    return next(iter(vals))
+                return None
+            if k == "If" and e.get("el"):
+                c = bool_of(e["c"], st)
+                if c is True:
+                    return bool_of(e["th"], st)
+                if c is False:
+                    return bool_of(e["el"], st)
+                a, b = bool_of(e["th"], st), bool_of(e["el"], st)
+                return a if a == b else None
             return None
 
         def report(kind, msg, node, chain=()):
